@@ -7,10 +7,10 @@
 # Oracle (reference written from the statement / ULPI 1.1 3.8.1-3.8.2):
 #   * PHY RxActive := DIR rise with NXT, or RX CMD bit 4; cleared by an RX CMD with bit 4 clear or by DIR falling.
 #   * every byte presented with NXT under DIR while RxActive must come out on rx_data/rx_valid, in order, exactly
-#     once, within RX_LAT cycles (the statement fixes no latency; the design documents one cycle; we admit 0..2);
+#     once, within RX_LAT cycles (the statement fixes no latency; the design documents one cycle; we admit 0..4);
 #     nothing else may come out (RX CMD bytes, turn-around garbage).
 #   * rx_active / (line_state, vbus_valid, session_end) must equal the PHY's RxActive / the decoding of the most
-#     recent RX CMD as of this cycle or one of the two preceding cycles.
+#     recent RX CMD as of this cycle or one of the RX_LAT preceding cycles.
 from harness._ulpi_phy import UlpiSpec
 
 PROPERTY = "C22"
@@ -41,7 +41,7 @@ def configs(tier):
             dict(name="rx+two-registers+transmit", checks=["rx"], phy=small, ctrl=TERM + [dict(dp_pulldown=0)], packets=[[0xC3, 0x5A], [0x2D]]),
         ]
     if tier != "quick":
-        for c in out: c["max_states"] = 300_000      # deterministic cap; only reached on trees where register writes go wrong
+        for c in out: c["max_states"] = 1_200_000    # deterministic cap
     return out
 
 
@@ -58,7 +58,7 @@ class RxSpec(UlpiSpec):
                 "the PHY presents data bytes (NXT high under DIR) only while it signals RxActive (DIR rise with NXT, or RX CMD bit 4)",
                 "the PHY raises DIR only on an idle bus or to abort a link command that has not completed (not inside a transmit packet, not in the STP cycle of a register write)",
                 "register reads cannot be issued through UTMITranslator (read_request tied low), so read turn-arounds are not exercised",
-                "UTMI outputs may lag the ULPI bus by 0..2 cycles"]
+                "UTMI outputs may lag the ULPI bus by 0..4 cycles (each output and each cause independently)"]
 
 
 def make(cfg, tier):
